@@ -6,6 +6,8 @@ mod container;
 mod dtarget;
 mod io;
 mod rt_fixed;
+mod gen_types;
+mod rtypes;
 mod schema;
 mod sexp;
 mod sval;
@@ -340,6 +342,9 @@ fn run_case(line: &str) -> String {
 		"sos" => cmd_sos(args),
 		"dealloc" => cmd_dealloc(args),
 		"sod" => cmd_sod(args),
+		"rtypes" => rtypes::cmd_rtypes(args),
+		"rtypes_schema" => rtypes::cmd_rtypes_schema(args),
+		"rtypes_oracle" => rtypes::cmd_rtypes_oracle(args),
 		"rt" => {
 			// rt SEED N : native round trips of a fixed family of ordinary Rust types
 			let seed: u64 = args[0].int()?;
